@@ -24,7 +24,173 @@ func runC12(c *Ctx) {
 		c12Mutids(c, h)
 		c12Labels(c, h)
 		c12Repositioned(c, h)
+		c12Structural(c, h)
 	}
+}
+
+// c12Structural: repo ids, version ids and data-instance ids across restarts.  Repos, data instances and
+// versions are created in a generated order with clean stops and abrupt exits in between, so that every kind of
+// allocation is at times the last one before a restart.  After every allocation: every repo, version and
+// instance created so far still exists, repo ids and version ids are pairwise distinct (manager dump), and a new
+// data instance is empty (it shares no instance id with an instance that holds data).
+func c12Structural(c *Ctx, h int) {
+	r := c.Rng.Fork()
+	dir := scratchDir("c12s")
+	defer os.RemoveAll(dir)
+	ch := mustChild(c, dir, nil)
+	if ch == nil {
+		return
+	}
+	defer func() {
+		if ch != nil {
+			ch.Kill()
+		}
+	}()
+	type repo struct {
+		root  string
+		open  string // uuid of an open version
+		insts []string
+	}
+	var repos []*repo
+	var uuids []string // every version created
+	var hist []string
+	restarts := 0
+	fail := func(sig, what, detail string) {
+		c.Report("O", "C12 "+sig, what, detail+"\nhistory:\n  "+strings.Join(hist, "\n  "))
+	}
+	check := func(after string) bool {
+		dump, _ := ch.Ask("DUMP")
+		ids := map[string]string{}
+		vers := map[string]string{}
+		present := map[string]bool{}
+		for _, ln := range strings.Split(dump, "|") {
+			var u string
+			var id, v int
+			if n, _ := fmt.Sscanf(ln, "repo uuid=%q id=%d", &u, &id); n == 2 {
+				if o, dup := ids[fmt.Sprint(id)]; dup && o != u {
+					fail("repo-id-issued-twice", "two repos share a repo id", fmt.Sprintf("after %s: repos %s and %s both have id %d", after, o, u, id))
+					return false
+				}
+				ids[fmt.Sprint(id)] = u
+				present[u] = true
+			}
+			if strings.HasPrefix(ln, "node ") {
+				var ru string
+				if n, _ := fmt.Sscanf(ln, "node repo=%q v=%d uuid=%q", &ru, &v, &u); n == 3 {
+					if o, dup := vers[fmt.Sprint(v)]; dup && o != u {
+						fail("version-id-issued-twice", "two versions share a version id", fmt.Sprintf("after %s: versions %s and %s both have id %d", after, o, u, v))
+						return false
+					}
+					vers[fmt.Sprint(v)] = u
+					present[u] = true
+				}
+			}
+		}
+		for _, rp := range repos {
+			if !present[rp.root] {
+				fail("repo-lost", "a repo created earlier is gone after a later allocation", fmt.Sprintf("after %s: repo %s is not in the manager's state", after, rp.root))
+				return false
+			}
+			if resp, ok := ch.HTTP("GET", "repo/"+rp.root+"/info", nil); !ok || !resp.OK() {
+				fail("repo-lost", "a repo created earlier is gone after a later allocation", fmt.Sprintf("after %s: GET repo/%s/info -> %s", after, rp.root, resp))
+				return false
+			}
+		}
+		for _, u := range uuids {
+			if !present[u] {
+				fail("version-lost", "a version created earlier is gone after a later allocation", fmt.Sprintf("after %s: version %s is not in the manager's state", after, u))
+				return false
+			}
+		}
+		return true
+	}
+	steps := 16
+	if c.Thorough {
+		steps = 30
+	}
+	for i := 0; i < steps; i++ {
+		k := r.Intn(10)
+		switch {
+		case len(repos) == 0 || k < 3:
+			resp, _ := ch.HTTP("POST", "repos", []byte(fmt.Sprintf(`{"alias":"r%d","description":"d"}`, len(repos))))
+			root := jsonField(resp.Body, "root")
+			if !resp.OK() || root == "" {
+				fail("newrepo-fails", "a repo cannot be created", resp.String())
+				return
+			}
+			repos = append(repos, &repo{root: root, open: root})
+			uuids = append(uuids, root)
+			hist = append(hist, "new repo "+root[:8])
+			c.Count("structural.newrepo")
+			if !check("new repo " + root[:8]) {
+				return
+			}
+		case k < 5:
+			rp := repos[r.Intn(len(repos))]
+			name := fmt.Sprintf("kv%d", len(rp.insts))
+			resp, _ := ch.HTTP("POST", "repo/"+rp.open+"/instance", []byte(fmt.Sprintf(`{"typename":"keyvalue","dataname":%q}`, name)))
+			if !resp.OK() {
+				fail("newinstance-fails", "a data instance cannot be created", resp.String())
+				return
+			}
+			hist = append(hist, fmt.Sprintf("new instance %s in repo %s", name, rp.root[:8]))
+			c.Count("structural.newinstance")
+			if kr, _ := ch.HTTP("GET", "node/"+rp.open+"/"+name+"/keys", nil); kr.OK() && strings.TrimSpace(string(kr.Body)) != "[]" {
+				fail("instance-id-issued-twice", "a newly created data instance is not empty: it shares its instance id with an instance that holds data",
+					fmt.Sprintf("GET node/%s/%s/keys -> %s", rp.open[:8], name, kr))
+				return
+			}
+			ch.HTTP("POST", "node/"+rp.open+"/"+name+"/key/mark", []byte(rp.root+name))
+			rp.insts = append(rp.insts, name)
+			if !check("new instance " + name) {
+				return
+			}
+		case k < 7:
+			rp := repos[r.Intn(len(repos))]
+			ch.HTTP("POST", "node/"+rp.open+"/commit", []byte(`{"note":"c"}`))
+			resp, _ := ch.HTTP("POST", "node/"+rp.open+"/newversion", []byte(`{"note":"n"}`))
+			child := jsonField(resp.Body, "child")
+			if !resp.OK() || child == "" {
+				fail("newversion-fails", "a version cannot be created", resp.String())
+				return
+			}
+			rp.open = child
+			uuids = append(uuids, child)
+			hist = append(hist, fmt.Sprintf("commit + new version %s in repo %s", child[:8], rp.root[:8]))
+			c.Count("structural.newversion")
+			if !check("new version " + child[:8]) {
+				return
+			}
+		default:
+			how := "SHUTDOWN"
+			if r.Bool() {
+				how = "kill"
+				ch.Kill()
+			} else {
+				ch.Stop("SHUTDOWN")
+			}
+			ch = mustChild(c, dir, nil)
+			if ch == nil {
+				return
+			}
+			restarts++
+			hist = append(hist, "restart ("+how+")")
+			c.Count("structural.restart")
+			if !check("restart") {
+				return
+			}
+			// every instance still holds its own mark
+			for _, rp := range repos {
+				for _, name := range rp.insts {
+					if kr, _ := ch.HTTP("GET", "node/"+rp.open+"/"+name+"/key/mark", nil); !kr.OK() || string(kr.Body) != rp.root+name {
+						fail("instance-data-mixed", "after a restart a data instance does not hold the value written to it", fmt.Sprintf("GET node/%s/%s/key/mark -> %s", rp.open[:8], name, kr))
+						return
+					}
+				}
+			}
+		}
+	}
+	c.Eval("structural "+strings.Join(hist, ";"), restarts > 0)
 }
 
 func mustChild(c *Ctx, dir string, env []string) *Child {
